@@ -356,10 +356,23 @@ func (prog Progress) focusedTransform(n datamodel.Node, na datamodel.NodeAssembl
 			}
 			if ti == i {
 				prog.Path = prog.Path.AppendSegment(seg)
+				replaced = true
+				if p2.Len() == 0 { // the last path segment gets a different case because it may need to handle deletion, as for maps above
+					n2, err := fn(prog, v)
+					if err != nil {
+						return err
+					}
+					if n2 == nil {
+						continue // replace with nil means delete: don't copy the element.
+					}
+					if err := la.AssembleValue().AssignNode(n2); err != nil {
+						return err
+					}
+					continue
+				}
 				if err := prog.focusedTransform(v, la.AssembleValue(), p2, fn, createParents); err != nil {
 					return err
 				}
-				replaced = true
 			} else {
 				if err := la.AssembleValue().AssignNode(v); err != nil {
 					return err
